@@ -23,7 +23,7 @@ Rewrites == {"simplify", "split_and", "refactor_reference", "replace_this_with_v
              "replace_var_with_literal", "negate", "join_self", "canonical_form", "type_check_references",
              "publish_event"}
 AllOps == Queries \cup Copies \cup Rewrites
-AllSels == {"root", "child1", "child2", "grandchild", "refleaf", "result"}
+AllSels == {"root", "child1", "child2", "grandchild", "refleaf", "thisleaf", "result"}
 
 VARIABLES sched,   \* the calls made so far: sequence of [op, sel]
           nheap    \* abstract heap: number of handles allocated (root = 1)
